@@ -376,7 +376,7 @@ def leaf_ops(rng, rel, shm=False):
 
 def gen_tree_case(rng, kind=None):
     """src and dest trees with odd content, `rjrssync s d [flags]` with local placement."""
-    kind = kind or rng.choice(['names', 'names', 'times', 'times', 'special', 'roots', 'deep', 'mixed', 'mixed', 'longnames'])
+    kind = kind or rng.choice(['names', 'names', 'times', 'times', 'special', 'roots', 'deep', 'mixed', 'mixed', 'longnames', 'kept', 'kept'])
     ops, argv = [], []
     src, dest = b's', b'd'
     if kind == 'roots':
@@ -419,6 +419,41 @@ def gen_tree_case(rng, kind=None):
             dest = dest + b'2'
         trail = rng.random() < 0.25
         argv = [src + (b'/' if rng.random() < 0.15 else b''), dest + (b'/' if trail else b'')]
+    elif kind == 'kept':
+        # a destination entry that is in the way of a source entry and is KEPT (skip), next to entries whose names
+        # are multi-byte and of every byte length around the kept path's: path-prefix tests on byte strings
+        ops += [['dir', hx(src)], ['dir', hx(dest)]]
+        keptname = rng.choice([b'd', b'ab', b'abc', 'k\u00e9'.encode(), b'dir1'])
+        if rng.random() < 0.5:
+            ops += [['dir', hx(src + b'/' + keptname)], ['file', hx(src + b'/' + keptname + b'/in'), 2, None]]
+        else:
+            ops += [['file', hx(src + b'/' + keptname), 4, None]]
+        r = rng.randrange(3)
+        if r == 0:
+            ops += [['file', hx(dest + b'/' + keptname), 3, None]] if ops[-1][0] != 'file' else [['dir', hx(dest + b'/' + keptname)]]
+        elif r == 1:
+            ops += [['link', hx(dest + b'/' + keptname), hx(b'nowhere')]]
+        else:
+            ops += [['dir', hx(b'elsewhere')], ['link', hx(dest + b'/' + keptname), hx(b'../elsewhere')]]
+        pool = ['\u00e9', '\u00e9\u00e9', '\u65e5\u672c\u8a9e', 'a\u00e9', 'ab\u65e5', '\u00f1x', 'd\u00e9', 'ab', 'abcd', '\U0001f600', 'x\U0001f600y']
+        for nm in rng.sample(pool, rng.randrange(2, 6)):
+            b = nm.encode()
+            which = rng.random()
+            if which < 0.5:
+                ops += [['file', hx(src + b'/' + b), 1, None]]
+            elif which < 0.8:
+                ops += [['dir', hx(src + b'/' + b)], ['file', hx(src + b'/' + b + b'/f'), 1, None]]
+            else:
+                ops += [['file', hx(dest + b'/' + b), 1, None]]
+        argv = [src, dest]
+        flags0 = rng.choice([['--dest-entry-needs-deleting', 'skip'], ['--all-destructive-behaviour', 'skip'],
+                             ['--dest-entry-needs-deleting', 'skip', '--dest-file-older', 'overwrite']])
+        seen, out = set(), []
+        for op in ops:
+            key = (op[1], op[0] == 'utime')
+            if key not in seen:
+                seen.add(key); out.append(op)
+        return {'family': 'tree', 'kind': kind, 'setup': out, 'argv': [hx(a) for a in argv] + [hx(f.encode()) for f in flags0], 'place': 'LL', 'timeout': 30}
     elif kind == 'deep':
         side = rng.choice(['src', 'dest', 'both'])
         ops += [['dir', hx(src)], ['dir', hx(dest)], ['file', hx(src + b'/top'), 1, None]]
